@@ -897,11 +897,20 @@ func ruleReadConversions(r *R) {
 				if ok {
 					// stores to *data: false under tmp==0, true otherwise
 					tmpAddr := call.Call.Args[1]
-					nst := 0
+					nst, direct := 0, 0
 					eachInstr(fn, func(in ssa.Instruction) {
 						st, isSt := in.(*ssa.Store)
 						if !isSt || st.Addr != data {
 							return
+						}
+						// direct form: *data = tmp != 0
+						if bo, isB := st.Val.(*ssa.BinOp); isB && bo.Op == token.NEQ {
+							if ld, isLd := bo.X.(*ssa.UnOp); isLd && ld.Op == token.MUL && ld.X == tmpAddr {
+								if k, okk := constInt(bo.Y); okk && k == 0 {
+									direct++
+									return
+								}
+							}
 						}
 						nst++
 						val, isC := constBool(st.Val)
@@ -923,7 +932,7 @@ func ruleReadConversions(r *R) {
 							ok = false
 						}
 					})
-					if nst != 2 {
+					if !(nst == 2 && direct == 0) && !(nst == 0 && direct >= 1) {
 						ok = false
 					}
 				}
